@@ -3,7 +3,8 @@ import json, os, shutil, subprocess, time
 from harness import tla
 from harness.checks import treefam as F
 
-PAIRS_Q = [('reg_hook', 'flatten'), ('reg', 'flatten'), ('next', 'next'), ('reg_hook', 'reg_hook'), ('unreg', 'flatten'), ('reg_hook', 'next')]
+PAIRS_Q = [('reg_hook', 'flatten'), ('reg', 'flatten'), ('next', 'next'), ('reg_hook', 'reg_hook'), ('unreg', 'flatten'), ('reg_hook', 'next'),
+           ('hash', 'hash'), ('hash', 'reg_hook')]
 PAIRS_T = PAIRS_Q + [('flatten', 'flatten'), ('reg', 'unreg'), ('reg_hook', 'unreg'), ('reg', 'next'), ('reg', 'reg'), ('flatten', 'next')]
 TRIPLES = [('reg_hook', 'flatten', 'flatten'), ('reg', 'unreg', 'flatten'), ('next', 'next', 'next'), ('reg_hook', 'flatten', 'next')]
 
@@ -12,7 +13,7 @@ def mc(ops, keep, nobj=2, nitems=3):
     opseq = '<<' + ', '.join('"%s"' % o for o in ops) + '>>'
     text = f'---- MODULE MC_Threads ----\nEXTENDS Threads\nMCOpOf == {opseq}\n====\n'
     c = (f'SPECIFICATION Spec\nCONSTANTS\n  NThreads = {len(ops)}\n  OpOf <- MCOpOf\n  WaitKeepsGil = {"TRUE" if keep else "FALSE"}\n'
-         f'  NObj = {nobj}\n  NItems = {nitems}\nINVARIANT NoDeadlock\nINVARIANT NoTornLookup\nINVARIANT ExactlyOnce\nINVARIANT MutualExclusion\n'
+         f'  NObj = {nobj}\n  NItems = {nitems}\n  GuardKeyedByThread = TRUE\nINVARIANT GuardPrivate\nINVARIANT NoDeadlock\nINVARIANT NoTornLookup\nINVARIANT ExactlyOnce\nINVARIANT MutualExclusion\n'
          'INVARIANT TornOnlyUnderLock\nCHECK_DEADLOCK FALSE\n')
     return text, c
 
@@ -136,6 +137,8 @@ def main(run):
                 problems.append(f'thread {i} produced no result')
             elif o == 'flatten' and (not res['ok'] or res['nleaves'] != (0 if res['custom'] else 1)):
                 problems.append(f'flatten result is not one of the sequential outcomes: {res}')
+            elif o == 'hash' and (not res['ok'] or not res['same_as_alone']):
+                problems.append(f'hash/repr of a shared treespec differs from its stand-alone value: {res}')
             elif o in ('reg', 'next') and not res['ok']:
                 problems.append(f'{o} raised {res}')
             elif o == 'unreg' and not res['ok'] and 'reg' not in rr['ops']:
